@@ -226,13 +226,68 @@ class SimSocket(socket.socket):
             w.step()
 
 
+    # every other way of receiving from a socket is expressed through the one simulated recv(), so a library that
+    # switches to recv_into / recvfrom / recvmsg / makefile still reads the simulated pipe
+    def recv_into(self, buffer, nbytes=0, flags=0):
+        mv = memoryview(buffer).cast("B")
+        n = len(mv) if not nbytes else min(nbytes, len(mv))
+        data = self.recv(n, flags)
+        mv[:len(data)] = data
+        return len(data)
+
+    def recvfrom(self, bufsize, flags=0):
+        return self.recv(bufsize, flags), None
+
+    def recvfrom_into(self, buffer, nbytes=0, flags=0):
+        return self.recv_into(buffer, nbytes, flags), None
+
+    def recvmsg(self, bufsize, ancbufsize=0, flags=0):
+        return self.recv(bufsize, flags), [], 0, None
+
+    def recvmsg_into(self, buffers, ancbufsize=0, flags=0):
+        total = 0
+        for b in buffers:
+            n = self.recv_into(b)
+            total += n
+            if n < len(memoryview(b).cast("B")):
+                break
+        return total, [], 0, None
+
+    def makefile(self, mode="r", buffering=None, **kw):
+        if "b" not in mode or any(c in mode for c in "wa+"):
+            raise HarnessBug(f"SimSocket.makefile({mode!r}) is not simulated")
+        sock = self
+
+        class _R(io.RawIOBase):
+            def readable(self):
+                return True
+
+            def readinto(self, b):
+                return sock.recv_into(b)
+        raw = _R()
+        if buffering == 0:
+            return raw
+        return io.BufferedReader(raw, buffer_size=buffering if (buffering and buffering > 0) else io.DEFAULT_BUFFER_SIZE)
+
+    def setblocking(self, flag):
+        self._sim_timeout = None if flag else 0.0
+
+    def getblocking(self):
+        return self._sim_timeout != 0.0
+
+    def fileno(self):
+        # select()/poll() on the placeholder descriptor would observe the real (empty) socket, not the simulation
+        return super().fileno()
+
+
 class SimRaw(io.RawIOBase):
     """Simulated raw disk file. ``short(n_possible) -> 1..n_possible`` decides how much one
     readinto() returns (a real ``io.BufferedReader`` above absorbs the short reads).
     ``fail_at`` = index of the readinto call that raises EIO (None: never)."""
 
-    def __init__(self, world, data: bytes, short=None, fail_at=None, name="disk"):
+    def __init__(self, world, data: bytes, short=None, fail_at=None, name="disk", seekable=True):
         super().__init__()
+        self._seekable = seekable       # False: a pipe / FIFO / stdin-like finite stream
         self._w = world
         self._data = data
         self._pos = 0
@@ -247,12 +302,17 @@ class SimRaw(io.RawIOBase):
         return True
 
     def seekable(self):
-        return True
+        return self._seekable
 
     def tell(self):
+        if not self._seekable:
+            raise io.UnsupportedOperation("underlying stream is not seekable")
         return self._pos
 
     def seek(self, offset, whence=0):
+        if not self._seekable:
+            self._w.ev(self._name, "seek_refused")
+            raise io.UnsupportedOperation("underlying stream is not seekable")
         if whence == 0:
             self._pos = offset
         elif whence == 1:
@@ -313,6 +373,27 @@ class SimClock:
     def sleep(self, s):
         self._w.now += int(s * 1e9)
 
+    def monotonic_ns(self):
+        return self._w.now
+
+    def perf_counter(self):
+        return self._w.now / 1e9
+
+    def perf_counter_ns(self):
+        return self._w.now
+
+    def process_time(self):
+        return self._w.now / 1e9
+
+    def process_time_ns(self):
+        return self._w.now
+
+    def __getattr__(self, name):
+        # anything else the real module offers (strftime, gmtime, struct_time, timezone ...) is not a clock the
+        # simulation has to own: delegate to the real module instead of failing inside library code
+        import time as _real_time
+        return getattr(_real_time, name)
+
 
 class NullOut:
     """stdout stand-in while the library prints its progress bar."""
@@ -326,3 +407,40 @@ class NullOut:
 
     def flush(self):
         pass
+
+
+class ClockSeam:
+    """Installs a SimClock where the library module keeps its clock: the module attribute ``time`` (``import time``)
+    and/or directly imported clock functions (``from time import time_ns``). If neither exists the run simply has no
+    clock faults (``installed`` stays False); it never fails because of how the library imports its clock."""
+    _FUNCS = ("time_ns", "time", "monotonic", "monotonic_ns", "perf_counter", "perf_counter_ns", "process_time",
+              "process_time_ns", "sleep")
+
+    def __init__(self, module, clock):
+        self.module = module
+        self.clock = clock
+        self.saved = {}
+        self.installed = False
+
+    def __enter__(self):
+        import time as _real_time
+        import types as _types
+        d = self.module.__dict__
+        if isinstance(d.get("time"), _types.ModuleType) and d["time"] is _real_time:
+            self.saved["time"] = d["time"]
+            d["time"] = self.clock
+            self.installed = True
+        for f in self._FUNCS:
+            if f == "time":
+                continue
+            if d.get(f) is getattr(_real_time, f, object()):
+                self.saved[f] = d[f]
+                d[f] = getattr(self.clock, f)
+                self.installed = True
+        return self
+
+    def __exit__(self, *exc):
+        for k, v in self.saved.items():
+            self.module.__dict__[k] = v
+        self.saved = {}
+        return False
